@@ -5,12 +5,16 @@ import gen
 import spec
 from props.common import load_impl, exc_name
 from props import kern
+from props import datasets as dsm
 
 RULE = ("(a) kernel level: rebuilt Cython kernel and Python reference kernel on random (labels, distances incl. tie groups, per-class utilities "
         "0/1 / integer / 1e6-scale, null scores), 1-40 units quick / 1-400 thorough, 1-6 validation points, 1-4 classes, with the sort orders the "
         "implementation's np.argsort returned recorded and re-validated by the model as weakly sorting permutations; (b) get_unit_labels_and_distances "
         "on random map/fork groupings vs Ds.Kernel.unitReduce; (c) end-to-end ShapleyImportance('neighbor').fit().score() for default, group-id "
-        "(arbitrary integers) and forked provenances, accuracy and random additive utilities, vs Ds.Neighbor.score; (d) n<=8: Shapley value by "
+        "(arbitrary integers), forked, in-place edited and EXPLICIT multi-candidate provenances (Provenance(units=n, candidates=3..4, data=[[unit, candidate], ...]) where a "
+        "unit owns rows under several candidate values or none; default world and explicit worlds passed to score() as key list / index array: a coalition's rows are those "
+        "whose literal holds under 'unit present => its world candidate, absent => candidate 0'), accuracy and random additive utilities, vs Ds.Neighbor.score (the model's "
+        "neighbor path takes no world argument: explicit worlds are compared with the by-definition Fraction Shapley value only); (d) n<=8: Shapley value by "
         "definition (Fractions) of the mean 1-NN game; (e) exhaustive small scope: all set partitions of <= 3 (quick) / 4 (thorough) rows into units x all distance orders x all binary label vectors x both validation labels, end to end. Non-trivial = >=2 units, >=2 distinct labels among units and the utility not constant; "
         "distinct = distinct canonical inputs.")
 
@@ -179,9 +183,10 @@ def part_c(ctx, I, budget):
     cases = 50 if ctx.tier == "quick" else 400
     for it in range(cases):
         n_units = rng.randint(1, 7)
-        mode = rng.choice(["default", "groups", "fork", "edited"])
+        mode = rng.choice(["default", "groups", "fork", "edited", "multicand"])
         if mode == "edited" and n_units < 2:
             mode = "default"
+        mc = None
         c = rng.randint(1, 4)
         m = rng.randint(1, 5)
         ties = rng.random() < 0.25
@@ -198,17 +203,26 @@ def part_c(ctx, I, budget):
                 groups[rng.randrange(n_units)] = rng.randrange(n_units)
             if groups == list(range(n_units)):
                 groups[0] = 1
+        elif mode == "multicand":
+            # every row carries one literal (unit == candidate) with one of >= 2 non-null candidates; only the rows whose candidate is the world's
+            # candidate of their unit belong to the training set when that unit is present
+            c = max(c, 2)
+            mc = dsm.rand_multicand(rng, n_units=n_units)
+            n_rows = mc["n_rows"]
+            groups = [u for u, _ in mc["lits"]]
         else:
             n_rows = rng.randint(n_units, n_units + 5)
             groups = gen.rand_groups(rng, n_rows, n_units)
+        present = mc["present"] if mc is not None else [True] * n_rows      # row r is in the training set of every coalition that contains groups[r]
         pool = rng.sample(range(-20, 60), c)
         if it % 4 == 1:
             pool = [0] + rng.sample(range(2, 15), c - 1)        # integer labels starting at 0 with gaps: not yet class indices
-        y_train = [rng.choice(pool) for _ in range(n_rows)]
+        y_train = [rng.choice(pool) for _ in range(n_rows)] if mc is None else dsm.multicand_labels(rng, mc, pool)
         classes = sorted(set(y_train))
         y_test = [rng.choice(classes) for _ in range(m)]
         dist = np.array(gen.tied_distances(rng, n_rows, m) if ties else gen.distinct_distances(rng, n_rows, m), dtype=float)
-        dkind = kern.extend_distances(rng, dist, ties) if mode != "edited" else "plain"      # (edited mode may leave units without rows: they sit at infinity themselves)
+        # (edited and multi-candidate modes may leave units without rows: they sit at infinity themselves)
+        dkind = kern.extend_distances(rng, dist, ties) if mode not in ("edited", "multicand") else "plain"
         ukind = rng.choice(["accuracy", "custom"])
         X = np.arange(n_rows, dtype=float).reshape(-1, 1)
         Xv = np.arange(m, dtype=float).reshape(-1, 1)
@@ -222,7 +236,12 @@ def part_c(ctx, I, budget):
             ureq = {"utility": "custom", "util": U, "nulls": nl}
         ids = None
         edits = None
-        if mode == "default":
+        score_kw = {}
+        if mode == "multicand":
+            provenance, preq = dsm.multicand_prov(I, mc)
+            simple = False
+            score_kw = dsm.world_arg(rng, mc)
+        elif mode == "default":
             provenance = None
             preq = {"nUnits": n_units, "default": True}
             edits = []
@@ -257,6 +276,8 @@ def part_c(ctx, I, budget):
             preq = {"nUnits": n_units, "groups": groups}
             simple = False
         case = dict(part="c", mode=mode, groups=(ids or groups), y_train=y_train, y_test=y_test, dist=dist.tolist(), **ureq)
+        if mc is not None:
+            case.update(nUnits=n_units, nCands=mc["n_cands"], lits=mc["lits"], world=mc["world"], world_as=(type(score_kw["world"]).__name__ if score_kw else "default"))
         store = []
         sh = I["shapley"]
         old_B = sh.BATCH_DISTANCE_MATRIX_SIZE
@@ -268,7 +289,7 @@ def part_c(ctx, I, budget):
             imp = I["imp"].ShapleyImportance(method="neighbor", utility=util, nn_k=1,
                                              nn_distance=lambda A, B, D=dist: D[:, [int(v) for v in np.asarray(B)[:, 0]]].copy())
             with kern.record_argsort(store):
-                res = list(np.asarray(imp.fit(X, np.array(y_train), provenance=provenance).score(Xv, np.array(y_test)), dtype=float))
+                res = list(np.asarray(imp.fit(X, np.array(y_train), provenance=provenance).score(Xv, np.array(y_test), **score_kw), dtype=float))
         except Exception as e:  # noqa
             res = exc_name(e) + ": " + repr(e)
         finally:
@@ -278,8 +299,10 @@ def part_c(ctx, I, budget):
                "dist": [[kern.frs(x) for x in row] for row in dist.tolist()], "K": 1, **ureq}
         if ords is not None and ties:
             req["orders"] = ords
-        ans = ctx.model(req)
-        ctx.case(case, nontrivial=(n_units >= 2 and len(classes) >= 2), sample=case, part="c", mode=mode, ties=ties, util=ukind, small_batch_constant=small_B, distances=dkind)
+        # the model's neighbor path switches each unit on with candidate 1 (the default world) and takes no world argument
+        ans = ctx.model(req) if not score_kw else None
+        ctx.case(case, nontrivial=(n_units >= 2 and len(classes) >= 2), sample=case, part="c", mode=mode, ties=ties, util=ukind, small_batch_constant=small_B, distances=dkind,
+                 **({"world": ("explicit-" + type(score_kw["world"]).__name__ if score_kw else "default")} if mc is not None else {}))
         ctx.maxi(units=n_units, rows=n_rows)
         # by definition (distinct distances, or the recorded order when tied)
         spec_val = None
@@ -296,7 +319,7 @@ def part_c(ctx, I, budget):
             games = []
             for j in range(m):
                 def v(S, j=j):
-                    rows = [r for r in range(n_rows) if groups[r] in S]
+                    rows = [r for r in range(n_rows) if groups[r] in S and present[r]]
                     if not rows:
                         return nlv[j]
                     if ties:
